@@ -293,11 +293,27 @@ def draw_knobs(ch, float64_p=0.7, fftw_p=0.3):
     return {
         "precision": "float64" if ch.bool(float64_p, "float64") else "float32",
         "fft": "fftw" if ch.bool(fftw_p, "fftw") else "numpy",
-        "chunk_size": ch.pick(["128 MB", "4 kB", "16 kB", "64 kB", "1 kB"], "chunk-size"),
+        # dask.chunk-size in units of one wave function (None = shipped 128 MB): small values make "auto"
+        # chunking split even tiny problems into many blocks.  Less than one wave is a documented user error.
+        "chunk_waves": ch.pick([None, 1, 2, 3, 5, 8], "chunk-waves"),
         "max_batch": ch.pick(["auto", 1, 2, 3, 5], "max-batch"),
     }
 
 
-def knob_overrides(k):
-    return {"precision": k["precision"], "fft": k["fft"], "dask.chunk-size": k["chunk_size"],
+def chunk_size_bytes(chunk_waves, gpts, precision):
+    if chunk_waves is None:
+        return "128 MB"
+    item = 16 if precision == "float64" else 8
+    return f"{int(chunk_waves * gpts[0] * gpts[1] * item + item)} B"
+
+
+def knob_overrides(k, gpts=None):
+    return {"precision": k["precision"], "fft": k["fft"],
+            "dask.chunk-size": chunk_size_bytes(k.get("chunk_waves") if gpts is not None else None, gpts, k["precision"]),
             "fftw.planning_effort": "FFTW_ESTIMATE", "fftw.threads": 1}
+
+
+def wave_gpts(pot_recipe):
+    g = pot_recipe["gpts"]
+    rep = pot_recipe.get("repetitions", [1, 1, 1])
+    return [g[0] * rep[0], g[1] * rep[1]]
